@@ -1,0 +1,140 @@
+//! Verification hooks (only compiled with `--cfg pricelevel_verif`).
+//!
+//! Drop-in wrappers around the shared-memory primitives used by the price level
+//! (atomics, the order map, the ticket queue). Every operation first calls a
+//! globally installable yield hook, so that an external deterministic scheduler
+//! can decide which thread performs the next shared-memory step. With the cfg
+//! flag off this file is not part of the crate.
+
+use serde::{Deserialize, Deserializer, Serialize, Serializer};
+use std::hash::Hash;
+use std::sync::atomic::Ordering;
+use std::sync::RwLock;
+
+type Hook = Box<dyn Fn(&'static str) + Send + Sync>;
+
+static HOOK: RwLock<Option<Hook>> = RwLock::new(None);
+
+/// Installs (or removes, with `None`) the hook called before every shared-memory step.
+pub fn set_yield_hook(hook: Option<Hook>) {
+    *HOOK.write().unwrap() = hook;
+}
+
+#[inline]
+fn yield_point(site: &'static str) {
+    if let Some(hook) = HOOK.read().unwrap().as_ref() {
+        hook(site);
+    }
+}
+
+macro_rules! hooked_atomic {
+    ($name:ident, $inner:ty, $prim:ty) => {
+        /// Hooked stand-in for the std atomic of the same name.
+        #[derive(Debug, Default)]
+        pub struct $name($inner);
+
+        impl $name {
+            /// See the std atomic.
+            pub const fn new(v: $prim) -> Self {
+                Self(<$inner>::new(v))
+            }
+            /// See the std atomic.
+            pub fn load(&self, o: Ordering) -> $prim {
+                yield_point("atomic.load");
+                self.0.load(o)
+            }
+            /// See the std atomic.
+            pub fn store(&self, v: $prim, o: Ordering) {
+                yield_point("atomic.store");
+                self.0.store(v, o)
+            }
+            /// See the std atomic.
+            pub fn fetch_add(&self, v: $prim, o: Ordering) -> $prim {
+                yield_point("atomic.rmw");
+                self.0.fetch_add(v, o)
+            }
+            /// See the std atomic.
+            pub fn fetch_sub(&self, v: $prim, o: Ordering) -> $prim {
+                yield_point("atomic.rmw");
+                self.0.fetch_sub(v, o)
+            }
+        }
+
+        impl Serialize for $name {
+            fn serialize<S: Serializer>(&self, s: S) -> Result<S::Ok, S::Error> {
+                self.0.load(Ordering::SeqCst).serialize(s)
+            }
+        }
+
+        impl<'de> Deserialize<'de> for $name {
+            fn deserialize<D: Deserializer<'de>>(d: D) -> Result<Self, D::Error> {
+                Ok(Self::new(<$prim>::deserialize(d)?))
+            }
+        }
+    };
+}
+
+hooked_atomic!(AtomicU64, std::sync::atomic::AtomicU64, u64);
+hooked_atomic!(AtomicUsize, std::sync::atomic::AtomicUsize, usize);
+
+/// Hooked stand-in for `dashmap::DashMap` (the subset the crate uses).
+#[derive(Debug)]
+pub struct DashMap<K: Eq + Hash, V>(dashmap::DashMap<K, V>);
+
+impl<K: Eq + Hash, V> DashMap<K, V> {
+    /// See `dashmap::DashMap`.
+    pub fn new() -> Self {
+        Self(dashmap::DashMap::new())
+    }
+    /// See `dashmap::DashMap`.
+    pub fn insert(&self, k: K, v: V) -> Option<V> {
+        yield_point("map.insert");
+        self.0.insert(k, v)
+    }
+    /// See `dashmap::DashMap`.
+    pub fn remove(&self, k: &K) -> Option<(K, V)> {
+        yield_point("map.remove");
+        self.0.remove(k)
+    }
+    /// See `dashmap::DashMap`.
+    pub fn get(&self, k: &K) -> Option<dashmap::mapref::one::Ref<'_, K, V>> {
+        yield_point("map.get");
+        self.0.get(k)
+    }
+    /// See `dashmap::DashMap`.
+    pub fn iter(&self) -> dashmap::iter::Iter<'_, K, V> {
+        yield_point("map.iter");
+        self.0.iter()
+    }
+    /// See `dashmap::DashMap`.
+    pub fn len(&self) -> usize {
+        yield_point("map.len");
+        self.0.len()
+    }
+    /// See `dashmap::DashMap`.
+    pub fn is_empty(&self) -> bool {
+        yield_point("map.len");
+        self.0.is_empty()
+    }
+}
+
+/// Hooked stand-in for `crossbeam::queue::SegQueue` (the subset the crate uses).
+#[derive(Debug)]
+pub struct SegQueue<T>(crossbeam::queue::SegQueue<T>);
+
+impl<T> SegQueue<T> {
+    /// See `crossbeam::queue::SegQueue`.
+    pub fn new() -> Self {
+        Self(crossbeam::queue::SegQueue::new())
+    }
+    /// See `crossbeam::queue::SegQueue`.
+    pub fn push(&self, v: T) {
+        yield_point("queue.push");
+        self.0.push(v)
+    }
+    /// See `crossbeam::queue::SegQueue`.
+    pub fn pop(&self) -> Option<T> {
+        yield_point("queue.pop");
+        self.0.pop()
+    }
+}
